@@ -13,6 +13,12 @@ def adminOf (s : String) : Option String := if s == "-" then none else if s == "
 def showAdmin : Option String → String
   | none => "-" | some "" => "~" | some a => a
 
+/-- exec funds: a number of `utok` (0 = no coins), or `z` = a coin list holding one zero-amount coin -/
+def fundsOf (s : String) : Mt.Funds := if s == "z" then .zeroCoin else .amount (s.toNat?.getD 0)
+
+def showFunds : Mt.Funds → String
+  | .zeroCoin => "z" | .amount n => toString n
+
 def jsonOfHex (s : String) : Option Json := parseJson (utf8OfHex s)
 
 def argsOfHex (s : String) : List Json := match jsonOfHex s with | some (.arr xs) => xs | _ => []
@@ -34,7 +40,7 @@ def parseProxyStep (s : String) : Option ProxyOp :=
   | ["inst", code, sender, setters, args] =>
     some (.inst code.toNat! sender ((setters.splitOn "/").filterMap parseSetter) (argsOfHex args))
   | ["exec", slot, part, method, sender, funds, args] =>
-    some (.exec slot.toNat! sender (if funds == "-" then none else some (funds.toNat?.getD 0)) { part := part.toNat!, method := method, args := argsOfHex args })
+    some (.exec slot.toNat! sender (if funds == "-" then none else some (fundsOf funds)) { part := part.toNat!, method := method, args := argsOfHex args })
   | ["query", slot, part, method, args] => some (.query slot.toNat! { part := part.toNat!, method := method, args := argsOfHex args })
   | ["sudo", slot, part, method, args] => some (.sudo slot.toNat! { part := part.toNat!, method := method, args := argsOfHex args })
   | ["mig", slot, sender, nc, args] => some (.mig slot.toNat! sender nc.toNat! (argsOfHex args))
@@ -46,7 +52,7 @@ def parseRawStep (s : String) : Option RawOp :=
   | ["setfail", slot, m] => some { shape := .setfail slot.toNat! (markerOf m), body := .null }
   | ["inst", code, sender, funds, label, admin, salt, body] =>
     (jsonOfHex body).map fun b => { shape := .inst code.toNat! sender (funds.toNat?.getD 0) (utf8OfHex label) (adminOf admin) (optOfDash salt), body := b }
-  | ["exec", slot, sender, funds, body] => (jsonOfHex body).map fun b => { shape := .exec slot.toNat! sender (funds.toNat?.getD 0), body := b }
+  | ["exec", slot, sender, funds, body] => (jsonOfHex body).map fun b => { shape := .exec slot.toNat! sender (fundsOf funds), body := b }
   | ["query", slot, body] => (jsonOfHex body).map fun b => { shape := .query slot.toNat!, body := b }
   | ["sudo", slot, body] => (jsonOfHex body).map fun b => { shape := .sudo slot.toNat!, body := b }
   | ["mig", slot, sender, nc, body] => (jsonOfHex body).map fun b => { shape := .mig slot.toNat! sender nc.toNat!, body := b }
@@ -59,13 +65,13 @@ def showRawStep (op : RawOp) : String :=
   | .setfail slot m => "setfail:" ++ toString slot ++ ":x" ++ hexOfString (m.getD "-")
   | .inst code sender funds label admin salt =>
     ":".intercalate ["inst", toString code, sender, toString funds, hexOfString label, showAdmin admin, salt.getD "-", body]
-  | .exec slot sender funds => ":".intercalate ["exec", toString slot, sender, toString funds, body]
+  | .exec slot sender funds => ":".intercalate ["exec", toString slot, sender, showFunds funds, body]
   | .query slot => ":".intercalate ["query", toString slot, body]
   | .sudo slot => ":".intercalate ["sudo", toString slot, body]
   | .mig slot sender nc => ":".intercalate ["mig", toString slot, sender, toString nc, body]
 
 def showChainErr : ChainErr → String
-  | .funds => "funds" | .duplicate => "duplicate" | .notAdmin => "not-admin" | .badCode => "bad-code" | .noLabel => "no-label"
+  | .emptyCoins => "empty-coins" | .funds => "funds" | .duplicate => "duplicate" | .notAdmin => "not-admin" | .badCode => "bad-code" | .noLabel => "no-label"
 
 def showRes : Res → String
   | .code id => "code=" ++ toString id
